@@ -981,7 +981,126 @@ fn ref_comps_of(model: &GaussianMixtureModel<f64>) -> Option<Vec<RefComp>> {
     Some(out)
 }
 
+/// n_runs >= 2: the runs continue from each other's state; the run with the best lower bound is returned
+/// and ITS convergence flag decides between Ok and Err(NotConverged).
+fn run_lockstep_multi(case: &Case, cfg: &Cfg, cnt: &mut Cnt, viols: &mut Vec<Violation>) -> bool {
+    let cj = |at: Value| single_case_json(case, cfg, at);
+    let cfg_txt = cfg_text(case, cfg);
+    cnt.add("fits", 1);
+    let data = &case.data;
+    let one = Cfg { n_runs: 1, ..cfg.clone() };
+    let start = match do_fit::<f64>(case, &Cfg { tol: 1e300, ..one.clone() }, cfg.max_iter.max(2)) {
+        Ok(Ok(m)) => m,
+        _ => {
+            cnt.add("multi_indeterminate_no_two_iteration_state", 1);
+            return false;
+        }
+    };
+    // the first run must not stop at an iteration <= 2 (its first two log-likelihoods are not observable)
+    match do_fit::<f64>(case, &one, 3) {
+        Ok(Err(GmmError::NotConverged(_))) => {}
+        _ => {
+            cnt.add("multi_indeterminate_first_run_stops_within_three_iterations", 1);
+            return false;
+        }
+    }
+    let result = match do_fit::<f64>(case, cfg, cfg.max_iter) {
+        Err(p) => {
+            viols.push(Violation::new("gmm.fit.panic", format!("fit panicked ({}): {}", cfg_txt, p), cj(json!({"phase": "fit"}))));
+            return false;
+        }
+        Ok(r) => r,
+    };
+    let Some(mut theta) = ref_comps_of(&start) else {
+        cnt.add("multi_indeterminate_reference_failed", 1);
+        return false;
+    };
+    let near = |a: f64, b: f64, l: f64| (a - b).abs() <= 1e-11 * (1.0 + l.abs()) + 0.01 * cfg.tol.min(1.0);
+    let mut max_lower = f64::NEG_INFINITY;
+    let mut best: Option<(Vec<RefComp>, bool, u64)> = None;
+    let mut log: Vec<String> = Vec::new();
+    for run in 0..cfg.n_runs {
+        let mut lower = f64::NEG_INFINITY;
+        let mut conv = false;
+        let first_iter = if run == 0 { 2 } else { 0 };
+        let mut prev = if run == 0 { f64::NAN } else { f64::NEG_INFINITY };
+        for j in first_iter..cfg.max_iter {
+            let l = mean_loglik(data, &theta);
+            let Some(next) = ref_em_step(data, &theta, cfg.reg) else {
+                cnt.add("multi_indeterminate_reference_failed", 1);
+                return false;
+            };
+            lower = l;
+            theta = next;
+            let change = l - prev;
+            prev = l;
+            if run == 0 && j == 2 {
+                continue; // known not to stop here (probe above)
+            }
+            if change.is_finite() && near(change.abs(), cfg.tol, l) {
+                cnt.add("multi_indeterminate_change_within_rounding_of_the_tolerance", 1);
+                return false;
+            }
+            if change.abs() < cfg.tol {
+                conv = true;
+                break;
+            }
+        }
+        log.push(format!("run {}: lower bound {} converged {}", run + 1, lower, conv));
+        if max_lower.is_finite() && near(lower, max_lower, lower) {
+            cnt.add("multi_indeterminate_lower_bounds_tied", 1);
+            return false;
+        }
+        if lower > max_lower {
+            max_lower = lower;
+            best = Some((theta.iter().map(|c| RefComp { lw: c.lw, mu: c.mu.clone(), l: c.l.clone(), logdet: c.logdet, cond: c.cond }).collect(), conv, run + 1));
+        }
+    }
+    let Some((bt, bconv, brun)) = best else {
+        cnt.add("multi_indeterminate_reference_failed", 1);
+        return false;
+    };
+    cnt.add("multi_decided", 1);
+    if brun < cfg.n_runs {
+        cnt.add("multi_decided_best_run_is_not_the_last", 1);
+    }
+    let at = cj(json!({"phase": "lockstep_multi"}));
+    let dist = |m: &GaussianMixtureModel<f64>| -> f64 {
+        let mut dv = 0.0f64;
+        let mut sc = 1.0f64;
+        for (c, r) in bt.iter().enumerate() {
+            dv = dv.max((m.weights()[c] - r.lw.exp()).abs());
+            for (a, b) in m.means().row(c).iter().zip(&r.mu) {
+                dv = dv.max((a - b).abs());
+                sc = sc.max(b.abs());
+            }
+        }
+        dv / sc
+    };
+    match (&result, bconv) {
+        (Ok(m), true) => {
+            cnt.add("multi_decided_ok", 1);
+            let dv = dist(m);
+            if !(dv <= 1e-6) {
+                viols.push(Violation::new("gmm.fit.multi_run.ok_model_is_not_the_best_run", format!("{}: reference runs [{}]: run {} has the best lower bound and converged, but the published model differs from its final state by {:e} relative (weights {:?})", cfg_txt, log.join("; "), brun, dv, m.weights().to_vec()), at));
+            }
+        }
+        (Err(GmmError::NotConverged(_)), false) => cnt.add("multi_decided_not_converged", 1),
+        (Ok(m), false) => viols.push(Violation::new(
+            "gmm.fit.multi_run.ok_although_the_best_run_did_not_converge",
+            format!("{}: reference runs [{}]: run {} has the best lower bound and exhausted its {} iterations, so the fit must be Err(NotConverged); it returned Ok with weights {:?} ({:e} relative from that run's final state)", cfg_txt, log.join("; "), brun, cfg.max_iter, m.weights().to_vec(), dist(m)),
+            at,
+        )),
+        (Err(e), true) => viols.push(Violation::new("gmm.fit.multi_run.err_although_the_best_run_converged", format!("{}: reference runs [{}]: run {} has the best lower bound and converged, but fit returned Err({})", cfg_txt, log.join("; "), brun, e), at)),
+        (Err(_), false) => cnt.add("multi_indeterminate_other_error", 1),
+    }
+    true
+}
+
 fn run_lockstep(case: &Case, cfg: &Cfg, cnt: &mut Cnt, viols: &mut Vec<Violation>) -> bool {
+    if cfg.n_runs > 1 {
+        return run_lockstep_multi(case, cfg, cnt, viols);
+    }
     let cj = |at: Value| single_case_json(case, cfg, at);
     let cfg_txt = cfg_text(case, cfg);
     cnt.add("fits", 1);
@@ -1779,6 +1898,7 @@ fn main() {
          size thresholds: members replicated to 1025 / 4097 rows (2 quick, 9 thorough incl. 2 in f32), k 2..3, both initialisers, seeds 0..1 / 0..3, reg_covar {1e-6,1e-3}, complete oracle set with every training row as a query. \
          tiny variance: 5 members scaled by 0.05 (within-cluster variance ~2.5e-3, unequal blob sizes 25/15/20), k 2..3, both initialisers, seeds 0..2 / 0..7, reg_covar {1e-2,1e-1}, tolerance {1e-6,1e-9}, n_runs {1,3}, max_n_iterations {100,5}, complete oracle set. \
          lock-step reference EM: the same 5 members scaled by 0.05 (reg_covar {1e-2,1e-1}, tolerance {1e-6,1e-9}) and unscaled (reg_covar {1e-3,0.1}, tolerance {1e-3,1e-5}), k 2..3, both initialisers, seeds 0..2 / 0..7, n_runs 1, max_n_iterations {100,10}: stop iteration and published parameters against a plain-f64 EM. \
+         multi-run lock-step: 4 members, k 2..3, both initialisers, seeds 0..2 / 0..7, reg_covar {0.1,0.5}, tolerance {1e-3,1e-5}, n_runs {2,3}, max_n_iterations {3,10}: the reference EM walks all runs (each continues from the previous state), keeps the strictly best lower bound and ITS convergence flag. \
          calling forms: separated / overlapping members (row layout r1) with 1..2 (quick) / 1..6 (thorough) features, k 1..3, both initialisers, seeds 0..1 / 0..3: predict through &array, owned array, array view, &dataset, owned dataset (without / with old targets), dataset of a view, &dataset of a view, predict_inplace into a poisoned and into a reused buffer, MultiTargetModel with one member (FromIterator, new, inplace) and with two members, each on the full query batch, a one-row and a two-row batch, every label compared with the arg-max tie set of the predict_proba row. \
          builder histories: 3 members x k 2..3 x both initialisers x seeds 0..1 / 0..5 x reg_covar {1e-3,0.1} x tolerance {1e-5,1e-2} x n_runs 3 x max_n_iterations {50,7}: the parameter set is built in all 720 orders of {with_rng, tolerance, reg_covariance, n_runs, max_n_iterations, init_method} and in 12 histories that write a decoy value first; the checked parameters must publish the configured values, and for 24 histories (with_rng at every position with the other setters ascending / descending, and the decoy histories) the fit must equal the canonical-order fit bit for bit. \
          budget ladder (outcome kind): separated / overlapping / anisotropic members with <= 2 (quick) / 3 (thorough) features, same k / init / seeds, reg_covar {1e-6,0.1}, tolerance {1e-3,1e-5}, n_runs {1,3}, max_n_iterations m in {1,2,3,5,10}: m = 1 must be Err; with n_runs = 1 an Ok at m must be reproduced bit-identically by m + 10. \
@@ -1796,6 +1916,7 @@ fn main() {
     ctx.assume("datasets of more than 60 rows: the tolerances of the quantities accumulated over the rows (weights sum, bounding box, moment identities) are multiplied by n / 60");
     ctx.assume("builder histories: every setter only writes its own field and with_rng only replaces the generator (last write wins); rng compared through the first u64 of a clone; fits compared with == on every parameter (same data, seed and logical parameters => same arithmetic)");
     ctx.assume("lock-step reference EM (plain f64: max-shifted E-step, M-step with reg_covar on the diagonal), n_runs = 1: started from the subject's own state after two iterations (obtained with tolerance 1e300, for which the loop provably stops at its second iteration); the subject must stop at the first iteration j >= 3 whose reference change |L_j - L_(j-1)| is below the tolerance and publish the reference parameters of that iteration within 1e-6 relative, or return Err(NotConverged) when no iteration of the budget qualifies; runs that stop at j <= 2 (fit with max_n_iterations = 3 is Ok) and changes within 1e-11 (1 + |L|) + 1 % of the tolerance are indeterminate. The one-step statistic 'next EM step moves the log-likelihood by more than 10 tolerances' of the sweeps is reported, not judged");
+    ctx.assume("multi-run lock-step: as the single-run lock-step, with the documented rule 'the run with the best lower bound is kept' and Ok exactly when THAT run met the tolerance; the first run must be known not to stop at an iteration <= 2 (single-run fit with budget 3 is NotConverged); changes within rounding of the tolerance and lower bounds tied within 1e-11 (1 + |L|) + 1 % of the tolerance are indeterminate");
     ctx.assume("budget ladder: fit is deterministic for a fixed seed (the rng is consumed only by the initialisation, cloned from the parameters at every call) and with n_runs = 1 an Ok result means the EM loop broke at an iteration < max_n_iterations, so a larger budget is never used: models compared with == on every f64 of weights, means, covariances, precisions; with max_n_iterations = 1 the only lower-bound change is measured against -inf (or is NaN), which is never below a tolerance");
 
     let members = catalogue(ctx.thorough());
@@ -1931,6 +2052,31 @@ fn main() {
         }
     }
     ctx.extra("tiny_variance_members", json!(tiny_ids));
+    // multi-run lock-step: sizeable reg_covar and small budgets, so that a later run can converge without
+    // beating the lower bound of an earlier, exhausted run
+    for id in ["separated-d2-b3-r1", "overlapping-d2-b3-r1", "separated-d1-b3-r1", "separated-d3-b2-r1"] {
+        let m = members.iter().find(|m| m.id == id).expect("catalogue member");
+        for k in 2..=3usize {
+            for init in ["kmeans", "random"] {
+                for seed in 0..ctx.pick(3u64, 8u64) {
+                    cases.push(Case {
+                        dataset: m.id.clone(),
+                        family: m.family.to_string(),
+                        data: m.data.clone(),
+                        n_clusters: k,
+                        init: init.to_string(),
+                        seeds: vec![seed],
+                        reg_covars: vec![0.1, 0.5],
+                        tolerances: vec![1e-3, 1e-5],
+                        n_runs: vec![2, 3],
+                        max_iters: vec![3, 10],
+                        kind: "lockstep".to_string(),
+                        float: "f64".to_string(),
+                    });
+                }
+            }
+        }
+    }
     {
         let mut ls: Vec<(String, String, Vec<Vec<f64>>, Vec<f64>, Vec<f64>)> = Vec::new();
         for id in ["separated-d2-b3-r1", "overlapping-d2-b3-r1", "separated-d1-b3-r1", "anisotropic-d3-b3-r1", "separated-d3-b2-r1"] {
